@@ -91,7 +91,7 @@ func runE(t *testing.T, job *Job, res *Result, spec *ESpec) {
 			v   Violation
 		}
 		var viols []caseViol
-		sc := &Scenario{Name: spec.Prop + " batch", Horizon: 24 * time.Hour, Log: spec.Log}
+		sc := &Scenario{Name: spec.Prop + " batch", Horizon: 15 * time.Minute, Log: spec.Log}
 		sc.Run = func(w *World) {
 			if spec.Setup != nil {
 				if err := spec.Setup(w); err != nil {
